@@ -204,3 +204,47 @@ def _ins_recession_interval(p):
      kind="insert", table="recession_interval_zeta", row=lambda p: (p.start_epoch, p.discrete_zeta, p.mean_crossing_time_s))
 def _ins_recession_interval_zeta(p):
     pass
+
+
+# --------------------------------------------------------------------------- load.py
+
+@sql("""WITH a AS ( SELECT min(epoch) AS min_t_zeta, max(epoch) AS max_t_zeta FROM water_level_staging )
+        SELECT epoch FROM rainfall_intensity_staging AS ris JOIN a ON ris.epoch >= min_t_zeta AND ris.epoch <= max_t_zeta
+        ORDER BY epoch""", rows="tuple[int]")
+def _q_grid_epochs(p, rows):
+    """The staged rainfall instants within the span of the staged water levels, ascending (epoch is the
+    primary key of the staging table)."""
+    ensures(forall(0, len(rows), lambda j: forall(0, j, lambda i: rows[i][0] < rows[j][0])))
+
+
+@sql("""INSERT INTO time_grid (source_time_zone, time_step_s) VALUES (?, ?)""", kind="insert")
+def _ins_time_grid(p):
+    pass
+
+
+@sql("""INSERT INTO grid_time (epoch) VALUES (?)""", kind="insert")
+def _ins_grid_time(p):
+    pass
+
+
+@sql("""SELECT epoch FROM grid_time AS gt WHERE NOT EXISTS ( SELECT 1 FROM evapotranspiration_staging AS es
+        WHERE es.epoch = gt.epoch ) ORDER BY epoch""", rows="tuple[int]")
+def _q_missing_et(p, rows):
+    """The grid instants without a staged ET value."""
+    ensures(forall(0, len(rows), lambda i: uf_int("has_staged_et", rows[i][0]) == 0))
+    ensures(forall_int(lambda e: implies(uf_int("on_grid", e) == 1 and uf_int("has_staged_et", e) == 0,
+                                         exists(0, len(rows), lambda i: rows[i][0] == e))))
+
+
+@sql("""INSERT INTO evapotranspiration (from_epoch, thru_epoch, evapotranspiration_mm_h)
+        SELECT es.epoch, es.epoch + ?, evapotranspiration_mm_h FROM evapotranspiration_staging AS es
+        JOIN grid_time AS gt USING (epoch) WHERE es.epoch <= ?""", kind="insert")
+def _ins_et(p):
+    pass
+
+
+@sql("""INSERT INTO rainfall_intensity (from_epoch, thru_epoch, rainfall_intensity_mm_h)
+        SELECT ris.epoch, ris.epoch + ?, rainfall_intensity_mm_h FROM rainfall_intensity_staging AS ris
+        JOIN grid_time AS gt USING (epoch) WHERE ris.epoch <= ?""", kind="insert")
+def _ins_rain(p):
+    pass
